@@ -544,15 +544,14 @@ def float_comb_offplane(a, b, t, d):
 def near_special_arc(rng, fam):
     """endpoints of an arc next to a special case"""
     u = rand_u(rng)
-    if fam == "near_meridian":          # endpoint longitudes differ by 5e-15 .. 1e-6 rad: just outside the window
-        # |dlon| <= MACHINE_EPSILON * (1 + lon) <= 1.6e-15 of the same-longitude test (inside it the outcome is rounding noise)
+    if fam == "near_meridian":          # endpoint longitudes differ by 1e-15 .. 1e-6 rad
         L = rng.uniform(0.05, 1.2)
         start = rng.uniform(-math.pi / 2 + 0.05, math.pi / 2 - 0.05 - L)
-        a, b = merid_pt(u, start), zrot_small(merid_pt(u, start + L), tiny(rng, 5e-15, 1e-6))
+        a, b = merid_pt(u, start), zrot_small(merid_pt(u, start + L), tiny(rng, 1e-15, 1e-6))
     elif fam == "near_through_pole":    # endpoint longitudes differ by pi -/+ (1e-15 .. 1e-6): the arc passes next to a pole
         pole = rng.choice([math.pi / 2, -math.pi / 2])
         before, after = rng.uniform(0.05, 1.2), rng.uniform(0.05, 1.2)
-        a, b = merid_pt(u, pole - before), zrot_small(merid_pt(u, pole + after), tiny(rng, 5e-15, 1e-5))
+        a, b = merid_pt(u, pole - before), zrot_small(merid_pt(u, pole + after), tiny(rng, 1e-15, 1e-5))
     elif fam == "near_equator":         # |z| of both endpoints 1e-15 .. 1e-7
         L = rand_len(rng)
         t0 = rng.uniform(-math.pi, math.pi)
@@ -741,8 +740,6 @@ def classify_pwg(c):
     L = _angle(a, b)
     pd, ed = plane_dist(a, b, p), min(_angle(a, p), _angle(b, p))
     ok = (MARGIN < L < math.pi - MARGIN) and (pd == 0.0 or pd >= MARGIN) and (pd != 0.0 or ed >= MARGIN)
-    if any(in_snap_zone(v) for v in (a, b, p)):
-        ok = False
     c.update(arc_len=L, plane_dist=pd, end_dist=ed, want=on_arc(a, b, p), in_scope=bool(ok) and not c.get("corr_only"))
     return c
 
@@ -772,8 +769,6 @@ def classify_gca(c):
         cond = 1.0 / (min(L1, L2) * math.sin(g))
         c["cond"] = cond
         ok = ok and cond <= 2.0e6       # measured error of the implementation ~ 2e-17 * cond
-        if any(in_snap_zone(v) for v in (a, b, cc, d, x)):
-            ok = False
     c.update(want=want, margin=margin, in_scope=bool(ok))
     return c
 
@@ -999,18 +994,11 @@ def eval_pwg(ck, c, model, st, rng):
             st.add("pwg_fail_variant", clause, bad2["arc"], bad2["dir"], bad2.get("cause"))
         if r2 != r:
             st.add("pwg_invariance_broken", clause, (bad2 or bad)["arc"], (bad2 or bad).get("cause"))
-    # --- correspondence with the faithful model (where float longitudes are not the deciding factor)
+    # --- correspondence with the faithful model (since a3bf7a7f no float longitude is involved: every arc is compared)
     if mf is not None:
-        if pole_arc(a, b) is None or exact_lon_plane(a, b):
-            st.add("pwg_corr_compared")
-            if r != mf and bad is None and pole_arc(a, b) in ("through_pole", "pole_endpoint"):
-                # pole branch: the faithful model is refuted there (C14_pwg_*_refuted); an implementation that agrees
-                # with the specification instead is repaired code, not a broken tie
-                st.add("pwg_impl_meets_spec_where_faithful_model_is_refuted")
-            elif r != mf and (bad is None or bad.get("cause") == "unexplained"):
-                ck.corr_failures.append({"case": jc, "impl": r, "model": mf, "oracle": want})
-        else:
-            st.add("pwg_corr_skipped_float_longitude")
+        st.add("pwg_corr_compared")
+        if r != mf and (bad is None or bad.get("cause") == "unexplained"):
+            ck.corr_failures.append({"case": jc, "impl": r, "model": mf, "oracle": want})
 
 
 def eval_gca(ck, c, model, st, rng):
@@ -1054,18 +1042,12 @@ def eval_gca(ck, c, model, st, rng):
             st.add("gca_invariance_broken", clause, w[1]["arc"] if w else "UNEXPLAINED", w[1].get("cause") if w else None)
             if not w:       # cannot happen when both answers are within PT_TOL of the same exact points
                 ck.fail(clause, vc, dict(tag, fn="gca_gca_intersection", cause="unexplained"), detail="impl=%r variant=%r" % (r, back))
-    # --- correspondence with the faithful model
+    # --- correspondence with the faithful model (every pair of arcs)
     if mf is not None:
-        if all((pole_arc(*arcp) is None) or exact_lon_plane(*arcp) for arcp in ((a, b), (cc, d))):
-            st.add("gca_corr_compared")
-            agree = (r == "E" and mf == "E") or (r != "E" and mf != "E" and points_match(r, mf))
-            polar = any(pole_arc(*arcp) in ("through_pole", "pole_endpoint") for arcp in ((a, b), (cc, d)))
-            if not agree and bad is None and polar:
-                st.add("gca_impl_meets_spec_where_faithful_model_is_refuted")
-            elif not agree and (bad is None or bad[1].get("cause") == "unexplained"):
-                ck.corr_failures.append({"case": jc, "impl": r, "model": [vstr(v) for v in mf] if mf != "E" else "E"})
-        else:
-            st.add("gca_corr_skipped_float_longitude")
+        st.add("gca_corr_compared")
+        agree = (r == "E" and mf == "E") or (r != "E" and mf != "E" and points_match(r, mf))
+        if not agree and (bad is None or bad[1].get("cause") == "unexplained"):
+            ck.corr_failures.append({"case": jc, "impl": r, "model": [vstr(v) for v in mf] if mf != "E" else "E"})
 
 
 def eval_ext(ck, c, model, st, rng):
@@ -1264,15 +1246,13 @@ def main(ck):
                               "answers that both agree with the oracle agree with each other; *_invariance_broken counts in "
                               "case_distribution say how often the implementation's two answers differed",
         "partial": "no floating-point error analysis: the exact-arithmetic statements are theorems, the float "
-                   "implementation is compared with them on margin-controlled inputs (margin 1e-6 rad); the faithful "
-                   "model idealises isclose() on longitudes to exact equality, therefore arcs in meridian planes other "
-                   "than y=0 are compared with the oracle only, not with the faithful model",
+                   "implementation is compared with them on margin-controlled inputs (margin 1e-6 rad)",
     })
     ck.trusted += ["numpy/numba float primitives (cross, dot, arctan2, arcsin, norm): the margin 1e-6 rad stands in for a rounding-error analysis",
                    "harness/translators/c14_consts.py (constants.py -> Gen/C14_consts.v)"]
     ck.assumptions += ["inputs are unit vectors up to float rounding; arcs have length in (1e-6, pi - 1e-6)",
                        "is_directed=False (the default) only",
-                       "points strictly inside the pole snap zone (|z| > 1 - 1e-8, 1.4e-4 rad) other than the poles themselves are outside the compared set"]
+                       "extreme_gca_latitude only: endpoints strictly inside the pole snap zone (|z| > 1 - 1e-8) are not generated"]
 
 
 def replay(ck, rp):
